@@ -46,6 +46,7 @@ def r1(c):
         cols = [x for x in calls_in(fn) if call_name(x) == "collapse_vlandb" and x.args]
         # a same-module helper that collapses one of its parameters carries the obligation to its call sites
         carriers = {}
+        carrier_flag = {}
         for node in m.tree.body:
             if isinstance(node, ast.FunctionDef) and node.name != fn.name:
                 ps = [a.arg for a in node.args.args]
@@ -55,11 +56,25 @@ def r1(c):
                         src0 = hpv.resolve_alias(x.args[0])
                         if isinstance(src0, ast.Name) and src0.id in ps:
                             carriers[node.name] = ps.index(src0.id)
+                            # the direct/removal flag of the commands the helper builds: a constant, or one of its parameters
+                            for t in ast.walk(node):
+                                if isinstance(t, ast.Tuple) and len(t.elts) == 3 and isinstance(getattr(t, "_parent", None), (ast.Yield, ast.Call, ast.ListComp, ast.GeneratorExp, ast.Return)):
+                                    f0 = t.elts[0]
+                                    if isinstance(f0, ast.Constant) and isinstance(f0.value, bool):
+                                        carrier_flag[node.name] = f0.value
+                                    elif isinstance(f0, ast.Name) and f0.id in ps:
+                                        carrier_flag[node.name] = ("param", ps.index(f0.id))
         via = {}
+        via_flag = {}
         for x in calls_in(fn):
             if call_name(x) in carriers and len(x.args) > carriers[call_name(x)]:
                 cols.append(x)
                 via[id(x)] = x.args[carriers[call_name(x)]]
+                fl = carrier_flag.get(call_name(x))
+                if isinstance(fl, tuple) and len(x.args) > fl[1] and isinstance(x.args[fl[1]], ast.Constant):
+                    fl = x.args[fl[1]].value
+                if isinstance(fl, bool):
+                    via_flag[id(x)] = fl
         c.floor("C11.R1", f"{vendor} collapse calls", len(cols), 2)
         for col in cols:
             # is this the removal or the addition arm?  look at the yields fed by it
@@ -70,6 +85,8 @@ def r1(c):
             for y in walk_no_nested(blk):
                 if isinstance(y, ast.Yield) and isinstance(y.value, ast.Tuple) and y.value.elts and isinstance(y.value.elts[0], ast.Constant):
                     flags.add(y.value.elts[0].value)
+            if id(col) in via_flag:
+                flags = {via_flag[id(col)]}
             if flags == {False}:
                 arm = "removal"
             elif flags == {True}:
